@@ -12,7 +12,9 @@
      highdeg     evaluations of a polynomial of degree bound+1 .. n-1 (degree n-1 with seeded
                  coefficients = an arbitrary function on the domain), honest prover, many queries
      lowzero     a polynomial x^z * g(x) of degree above the bound (up to 2*bound - 1) whose z lowest
-                 coefficients vanish (z = bound, bound / 2, or seeded): the folded remainder then has
+                 coefficients vanish (z = bound, bound / 2, or seeded), proven by the honest algorithm run
+                 under PROVER-SIDE options (half the blowup, remainder degree 2R + 1: same domain, same
+                 number of layers, so the remainder keeps every coefficient); the folded remainder has
                  vanishing LOW-order coefficients, which a degree count from the wrong end would skip
      killed      a polynomial of degree bound+2 whose excess TLC's alpha cancels in the first fold
                  (N = 2): the specification says ACCEPT — the inherent soundness error of FRI, hit on
